@@ -106,7 +106,7 @@ def href_pattern(url):
     return out
 
 
-def walk(doc_root, search=True):
+def walk(doc_root, search=True, scratch_roots=()):
     """-> (problems, stats)"""
     root = pathlib.Path(doc_root).resolve()
     problems, stats = [], {"pages": 0, "links": 0, "internal": 0, "fragments": 0, "svg": 0, "graph_table": 0,
@@ -145,7 +145,7 @@ def walk(doc_root, search=True):
             stats["svg"] += 1
         if in_svg == "graph-table":
             stats["graph_table"] += 1
-        if u.startswith("/") or str(root) in u:
+        if u.startswith("/") or str(root) in u or any(sr in u for sr in scratch_roots):
             problems.append(dict(page=src_rel, attr=attr, url=url, problem="absolute", kind=kind))
             return
         sp = urlsplit(u)
